@@ -339,7 +339,13 @@ pub fn webpki_verify(leaf: &[u8], intermediates: &[Vec<u8>], trust: &[Vec<u8>], 
 		return Err("webpki cannot express times before 1970".into());
 	}
 	let time = UnixTime::since_unix_epoch(std::time::Duration::from_secs(at_unix as u64));
-	let ku = if usage == 0 { webpki::KeyUsage::server_auth() } else { webpki::KeyUsage::client_auth() };
+	// usages 2.. are custom purposes (DER content octets of the OIDs in mon::chains::CUSTOM_PURPOSES)
+	const CUSTOM: [&[u8]; 3] = [&[0x2b, 6, 1, 4, 1, 0x83, 0xb2, 0x03, 1, 1], &[0x2b, 6, 1, 4, 1, 0x83, 0xb2, 0x03, 1, 2], &[0x2a, 3, 4]];
+	let ku = match usage {
+		0 => webpki::KeyUsage::server_auth(),
+		1 => webpki::KeyUsage::client_auth(),
+		n => webpki::KeyUsage::required_if_present(CUSTOM[(n as usize - 2) % 3]),
+	};
 	let r = ee.verify_for_usage(webpki::ALL_VERIFICATION_ALGS, &anchors, &inter, time, ku, None, None);
 	Ok(match r {
 		Ok(_) => Ok(()),
